@@ -30,6 +30,7 @@ import (
 	"runtime"
 	"strings"
 	"sync/atomic"
+	"time"
 
 	. "gethverif/harness/hxlib"
 	"github.com/ethereum/go-ethereum/common"
@@ -1166,5 +1167,7 @@ func main() {
 			"Non-trivial: some iteration migrated at least one block beyond genesis into the freezer.",
 		Gen: gen,
 		Run: run,
+		// the large-scale cases write and read back 30000-60000 blocks on a loaded machine
+		CaseTimeout: 20 * time.Minute,
 	})
 }
